@@ -9,6 +9,7 @@ import (
 	"fmt"
 	"net/http"
 	"net/url"
+	"regexp"
 	"sort"
 	"strings"
 	"sync"
@@ -30,10 +31,111 @@ type c15Req struct {
 	BodyLen int         `json:"bodyLen,omitempty"`
 	Cond    string      `json:"cond,omitempty"`
 	AE      string      `json:"ae,omitempty"` // "-" absent
+	Groups  []string    `json:"groups,omitempty"` // generated rules: what the wildcards of the first rule stand for in this request
+	NoMatch bool        `json:"noMatch,omitempty"` // generated rules: a path no rule is built for
+}
+
+// c15Rule: a rewrite rule of the documented form "pattern:value" -- the pattern is a path whose
+// segments are literals or the wildcard *, the value a path made of literals and $n tokens
+type c15Rule struct {
+	Anchor bool     `json:"anchor,omitempty"`
+	Segs   []string `json:"segs"`   // "*" is the wildcard
+	Value  []c15Tok `json:"value"`  // concatenated
+}
+
+type c15Tok struct {
+	Lit   string `json:"lit,omitempty"`
+	Group int    `json:"group,omitempty"` // 1-based, 0 => literal
+}
+
+func (r c15Rule) pattern() string {
+	p := "/" + strings.Join(r.Segs, "/")
+	if r.Anchor {
+		p = "^" + p
+	}
+	return p
+}
+
+func (r c15Rule) value() string {
+	var sb strings.Builder
+	for _, t := range r.Value {
+		if t.Group > 0 {
+			fmt.Fprintf(&sb, "$%d", t.Group)
+		} else {
+			sb.WriteString(t.Lit)
+		}
+	}
+	return sb.String()
+}
+
+func (r c15Rule) String() string { return r.pattern() + ":" + r.value() }
+
+// c15Rewrite: the reference -- the rules are tried in order on the (decoded) path; a rule whose
+// pattern (each * standing for any run of characters) matches replaces the path by its value
+// with every $n standing for what the n-th * matched. The substitution is done on the token
+// list, not on the text of the value.
+func c15Rewrite(rules []c15Rule, rawPath string) string {
+	p, err := url.PathUnescape(rawPath)
+	if err != nil {
+		return rawPath
+	}
+	changed := false
+	for _, r := range rules {
+		re := regexp.MustCompile(strings.ReplaceAll(r.pattern(), "*", "(.*)"))
+		m := re.FindStringSubmatch(p)
+		if m == nil {
+			continue
+		}
+		var sb strings.Builder
+		for _, t := range r.Value {
+			if t.Group > 0 {
+				if t.Group < len(m) {
+					sb.WriteString(m[t.Group])
+				} else {
+					fmt.Fprintf(&sb, "$%d", t.Group)
+				}
+			} else {
+				sb.WriteString(t.Lit)
+			}
+		}
+		p = sb.String()
+		changed = true
+	}
+	if !changed {
+		return rawPath
+	}
+	return (&url.URL{Path: p}).EscapedPath()
+}
+
+func genC15Rule(t *rapid.T, label string) c15Rule {
+	r := c15Rule{Anchor: rapid.Bool().Draw(t, label+"Anchor")}
+	lits := []string{"files", "img", "rest", "user", "v1", "static"}
+	r.Segs = []string{rapid.SampledFrom(lits).Draw(t, label+"Lit0")}
+	k := rapid.IntRange(1, 3).Draw(t, label+"K")
+	for i := 0; i < k; i++ {
+		if i > 0 && rapid.IntRange(0, 2).Draw(t, label+"Mid") == 0 {
+			r.Segs = append(r.Segs, rapid.SampledFrom(lits).Draw(t, label+"Lit"))
+		}
+		r.Segs = append(r.Segs, "*")
+	}
+	r.Value = []c15Tok{{Lit: "/" + rapid.SampledFrom([]string{"", "store/", "resize/", "v", "api/v2/"}).Draw(t, label+"Head")}}
+	n := rapid.IntRange(1, k+1).Draw(t, label+"NTok")
+	for i := 0; i < n; i++ {
+		if i > 0 {
+			// what stands between two tokens: nothing that starts with a digit ($1 followed by 0 would read $10)
+			r.Value = append(r.Value, c15Tok{Lit: rapid.SampledFrom([]string{"/", "/", "-", "_", "x", ".", "", "/by/", "~"}).Draw(t, label+"Sep")})
+		}
+		r.Value = append(r.Value, c15Tok{Group: rapid.IntRange(1, k).Draw(t, label+"Group")})
+	}
+	if tail := rapid.SampledFrom([]string{"", "", "/end", "_t", "beta", ".json", "-x/y"}).Draw(t, label+"Tail"); tail != "" {
+		r.Value = append(r.Value, c15Tok{Lit: tail})
+	}
+	return r
 }
 
 type c15Scenario struct {
-	Rewrite  int         `json:"rewrite"` // 0 none, 1 /api/*:/$1, 2 /rest/*/user/*:/$1/$2
+	Rewrite  int         `json:"rewrite"` // 0 none, 1 /api/*:/$1, 2 /rest/*/user/*:/$1/$2, 3 generated rules
+	Rules    []c15Rule   `json:"rules,omitempty"`
 	AddReq   [][2]string `json:"addReq,omitempty"`
 	AddResp  [][2]string `json:"addResp,omitempty"`
 	AddQuery [][2]string `json:"addQuery,omitempty"`
@@ -53,7 +155,13 @@ const c15Addr = "127.0.0.2:0"
 var c15ModTime = time.Date(2020, 5, 1, 12, 0, 0, 0, time.UTC)
 
 func genC15(t *rapid.T) c15Scenario {
-	sc := c15Scenario{Rewrite: rapid.IntRange(0, 2).Draw(t, "rewrite")}
+	sc := c15Scenario{Rewrite: rapid.SampledFrom([]int{0, 1, 2, 3, 3, 3}).Draw(t, "rewrite")}
+	if sc.Rewrite == 3 {
+		sc.Rules = []c15Rule{genC15Rule(t, "rule0")}
+		if rapid.IntRange(0, 3).Draw(t, "twoRules") == 0 {
+			sc.Rules = append(sc.Rules, genC15Rule(t, "rule1"))
+		}
+	}
 	pairs := func(label string, pool [][2]string) [][2]string {
 		n := rapid.IntRange(0, 3).Draw(t, label+"N")
 		var res [][2]string
@@ -73,6 +181,13 @@ func genC15(t *rapid.T) c15Scenario {
 		r := c15Req{Key: rapid.IntRange(0, 2).Draw(t, "key")}
 		r.Method = rapid.SampledFrom([]string{"GET", "GET", "GET", "GET", "HEAD", "POST", "PUT", "PATCH", "DELETE", "OPTIONS"}).Draw(t, "method")
 		r.Tail = rapid.SampledFrom(tails).Draw(t, "tail")
+		if sc.Rewrite == 3 {
+			vals := []string{"2020", "report", "640", "480", "cat.png", "a-b", "x_y", "v1", "sp%20ace", "u%E2%9C%93", "seg/ment"}
+			for range sc.Rules[0].Segs {
+				r.Groups = append(r.Groups, rapid.SampledFrom(vals).Draw(t, "groupVal"))
+			}
+			r.NoMatch = rapid.IntRange(0, 7).Draw(t, "noMatch") == 0
+		}
 		r.Query = rapid.SampledFrom(queries).Draw(t, "query")
 		nh := rapid.IntRange(0, 5).Draw(t, "nHeaders")
 		for j := 0; j < nh; j++ {
@@ -90,7 +205,27 @@ func genC15(t *rapid.T) c15Scenario {
 	return sc
 }
 
-func c15Path(rewrite int, tail string) (clientPath, upstreamPath string) {
+func c15Path(sc c15Scenario, r c15Req, suffix string) (clientPath, upstreamPath string) {
+	rewrite, tail := sc.Rewrite, r.Tail
+	if rewrite == 3 {
+		if r.NoMatch {
+			clientPath = "/plain/" + tail + suffix
+		} else {
+			for i, seg := range sc.Rules[0].Segs {
+				if seg == "*" {
+					seg = r.Groups[i%len(r.Groups)]
+				}
+				clientPath += "/" + seg
+			}
+			clientPath += suffix
+		}
+		return clientPath, c15Rewrite(sc.Rules, clientPath)
+	}
+	clientPath, upstreamPath = c15PathFixed(rewrite, tail)
+	return clientPath + suffix, upstreamPath + suffix
+}
+
+func c15PathFixed(rewrite int, tail string) (clientPath, upstreamPath string) {
 	switch rewrite {
 	case 1:
 		return "/api/" + tail, "/" + tail
@@ -122,6 +257,10 @@ func execC15(sc c15Scenario) *vstat.Outcome {
 		loc.Rewrites = []string{"/api/*:/$1"}
 	case 2:
 		loc.Rewrites = []string{"/rest/*/user/*:/$1/$2"}
+	case 3:
+		for _, r := range sc.Rules {
+			loc.Rewrites = append(loc.Rewrites, r.String())
+		}
 	}
 	cacheName := fmt.Sprintf("c15-%d", n)
 	cfg := &config.PikeConfig{
@@ -166,10 +305,8 @@ func execC15(sc c15Scenario) *vstat.Outcome {
 	usedURIs := map[string]int{} // client uri -> key kind
 
 	for i, r := range sc.Reqs {
-		cpath, upath := c15Path(sc.Rewrite, r.Tail)
 		// keys: the key kind is part of the path so that the two specs never share a cache key
-		cpath += fmt.Sprintf("/k%d-%d", r.Key, n)
-		upath += fmt.Sprintf("/k%d-%d", r.Key, n)
+		cpath, upath := c15Path(sc, r, fmt.Sprintf("/k%d-%d", r.Key, n))
 		uri := cpath
 		if r.Query != "" {
 			uri += "?" + r.Query
@@ -238,7 +375,7 @@ func execC15(sc c15Scenario) *vstat.Outcome {
 				gotPath, gotQuery = l.URI[:j], l.URI[j+1:]
 			}
 			if gotPath != upath {
-				out.Violate("C15", "path", "%s: the upstream saw path %q, expected %q (rewrite rule %d)", what, gotPath, upath, sc.Rewrite)
+				out.Violate("C15", "path", "%s: the upstream saw path %q, expected %q (rewrite rule %d %v)", what, gotPath, upath, sc.Rewrite, loc.Rewrites)
 			}
 			if len(sc.AddQuery) == 0 {
 				if gotQuery != r.Query {
